@@ -1,0 +1,148 @@
+//go:build verif
+
+// Verification-only exports for the record layer (properties C25, C28). Add-only: nothing in this
+// file is compiled without the `verif` tag and no existing line of the package is changed by it.
+
+package tls
+
+import (
+	"crypto/cipher"
+	"errors"
+)
+
+// VerifServerAllowSuites appends ids to the TLS 1.0-1.2 preference orders, so that the in-package
+// *server* can select suites that exist in utlsSupportedCipherSuites but that upstream's preference
+// lists do not name (the OLD_ ChaCha20 code points, the suites behind EnableWeakCiphers). A peer
+// able to select them is needed to reach those suites on the client; the client code is untouched.
+func VerifServerAllowSuites(ids ...uint16) {
+	for _, id := range ids {
+		dup := false
+		for _, x := range cipherSuitesPreferenceOrder {
+			if x == id {
+				dup = true
+			}
+		}
+		if dup {
+			continue
+		}
+		cipherSuitesPreferenceOrder = append(cipherSuitesPreferenceOrder, id)
+		cipherSuitesPreferenceOrderNoAES = append(cipherSuitesPreferenceOrderNoAES, id)
+	}
+}
+
+// VerifSupportedSuiteIDs lists the ids of utlsSupportedCipherSuites as it is now.
+func VerifSupportedSuiteIDs() []uint16 {
+	var out []uint16
+	for _, s := range utlsSupportedCipherSuites {
+		out = append(out, s.id)
+	}
+	return out
+}
+
+// VerifHalf describes one direction of the record layer.
+type VerifHalf struct {
+	Seq              uint64
+	Kind             string // "nil", "stream", "aead-prefix", "aead-xor", "aead-other", "cbc"
+	ExplicitNonceLen int
+	MacSize          int
+	BlockSize        int
+	Overhead         int
+	Secret           []byte // TLS 1.3 traffic secret (nil otherwise)
+	Err              error
+}
+
+// VerifRecState is a snapshot of the record-layer state of a connection.
+type VerifRecState struct {
+	Vers, Suite           uint16
+	In, Out               VerifHalf
+	BytesSent             int64
+	PacketsSent           int64
+	InputLen, RawInputLen int
+	HandLen               int
+	RetryCount            int
+}
+
+func verifHalfOf(hc *halfConn) VerifHalf {
+	h := VerifHalf{Kind: "nil", Err: hc.err}
+	for i := 0; i < 8; i++ {
+		h.Seq = h.Seq<<8 | uint64(hc.seq[i])
+	}
+	h.Secret = append([]byte(nil), hc.trafficSecret...)
+	if hc.cipher == nil {
+		return h
+	}
+	h.ExplicitNonceLen = hc.explicitNonceLen()
+	if hc.mac != nil {
+		h.MacSize = hc.mac.Size()
+	}
+	switch c := hc.cipher.(type) {
+	case cipher.Stream:
+		h.Kind = "stream"
+	case *prefixNonceAEAD:
+		h.Kind = "aead-prefix"
+		h.Overhead = c.Overhead()
+	case *xorNonceAEAD:
+		h.Kind = "aead-xor"
+		h.Overhead = c.Overhead()
+	case aead:
+		h.Kind = "aead-other"
+		h.Overhead = c.Overhead()
+	case cbcMode:
+		h.Kind = "cbc"
+		h.BlockSize = c.BlockSize()
+	}
+	return h
+}
+
+// VerifRecState returns the record-layer snapshot. Call it only while no Read/Write is in flight.
+func (c *Conn) VerifRecState() VerifRecState {
+	c.in.Lock()
+	defer c.in.Unlock()
+	c.out.Lock()
+	defer c.out.Unlock()
+	return VerifRecState{
+		Vers: c.vers, Suite: c.cipherSuite,
+		In: verifHalfOf(&c.in), Out: verifHalfOf(&c.out),
+		BytesSent: c.bytesSent, PacketsSent: c.packetsSent,
+		InputLen: c.input.Len(), RawInputLen: c.rawInput.Len(), HandLen: c.hand.Len(),
+		RetryCount: c.retryCount,
+	}
+}
+
+// VerifSendKeyUpdate sends a TLS 1.3 KeyUpdate (the package has no public API for initiating one)
+// and then switches the outgoing direction to the next traffic secret — the same three steps
+// handleKeyUpdate performs for its response. The *receiving* side runs the unmodified
+// handlePostHandshakeMessage / handleKeyUpdate.
+func (c *Conn) VerifSendKeyUpdate(requestUpdate bool) error {
+	c.out.Lock()
+	defer c.out.Unlock()
+	if c.vers != VersionTLS13 {
+		return errors.New("verif: KeyUpdate needs TLS 1.3")
+	}
+	suite := cipherSuiteTLS13ByID(c.cipherSuite)
+	if suite == nil {
+		return errors.New("verif: no TLS 1.3 suite")
+	}
+	if err := c.out.err; err != nil {
+		return err
+	}
+	msg := &keyUpdateMsg{updateRequested: requestUpdate}
+	b, err := msg.marshal()
+	if err != nil {
+		return err
+	}
+	if _, err := c.writeRecordLocked(recordTypeHandshake, b); err != nil {
+		return c.out.setErrorLocked(err)
+	}
+	c.out.setTrafficSecret(suite, QUICEncryptionLevelInitial, suite.nextTrafficSecret(c.out.trafficSecret))
+	return nil
+}
+
+// VerifTrafficKey exposes cipherSuiteTLS13.trafficKey (key, iv of a traffic secret).
+func VerifTrafficKey(suiteID uint16, secret []byte) (key, iv []byte) {
+	s := cipherSuiteTLS13ByID(suiteID)
+	if s == nil {
+		return nil, nil
+	}
+	return s.trafficKey(secret)
+}
